@@ -773,6 +773,17 @@ def make_policy(aconf: AuditConf, banner: Optional['Banner'], kex: Optional['SSH
         print(err)
 
 
+class IPVersionAction(argparse.Action):  # pylint: disable=too-few-public-methods
+    '''Handles the -4/--ipv4 and -6/--ipv6 flags.  Unlike "store_true", it also records the order in which they were given.'''
+
+    def __call__(self, parser: argparse.ArgumentParser, namespace: argparse.Namespace, values: Any, option_string: Optional[str] = None) -> None:
+        setattr(namespace, self.dest, True)
+        ip_version = 4 if self.dest == 'ipv4' else 6
+        order = getattr(namespace, 'ip_version_order', [])
+        if ip_version not in order:
+            namespace.ip_version_order = order + [ip_version]
+
+
 def process_commandline(out: OutputBuffer, args: List[str]) -> 'AuditConf':  # pylint: disable=too-many-statements
     # pylint: disable=too-many-branches
     aconf = AuditConf()
@@ -795,8 +806,8 @@ def process_commandline(out: OutputBuffer, args: List[str]) -> 'AuditConf':  # p
     # Add short options to the parser
     parser.add_argument("-1", "--ssh1", action="store_true", dest="ssh1", default=False, help="force ssh version 1 only")
     parser.add_argument("-2", "--ssh2", action="store_true", dest="ssh2", default=False, help="force ssh version 2 only")
-    parser.add_argument("-4", "--ipv4", action="store_true", dest="ipv4", default=False, help="enable IPv4 (order of precedence)")
-    parser.add_argument("-6", "--ipv6", action="store_true", dest="ipv6", default=False, help="enable IPv6 (order of precedence)")
+    parser.add_argument("-4", "--ipv4", action=IPVersionAction, nargs=0, dest="ipv4", default=False, help="enable IPv4 (order of precedence)")
+    parser.add_argument("-6", "--ipv6", action=IPVersionAction, nargs=0, dest="ipv6", default=False, help="enable IPv6 (order of precedence)")
     parser.add_argument("-b", "--batch", action="store_true", dest="batch", default=False, help="batch output")
     parser.add_argument("-c", "--client-audit", action="store_true", dest="client_audit", default=False, help="starts a server on port 2222 to audit client software config (use -p to change port; use -t to change timeout)")
     parser.add_argument("-d", "--debug", action="store_true", dest="debug", default=False, help="enable debugging output")
@@ -834,8 +845,14 @@ def process_commandline(out: OutputBuffer, args: List[str]) -> 'AuditConf':  # p
 
         # Set simple flags.
         aconf.client_audit = argument.client_audit
-        aconf.ipv4 = argument.ipv4
-        aconf.ipv6 = argument.ipv6
+
+        # Set the IP version flags in the order they were given on the command line, since that order is their precedence (i.e.: -46 vs. -64).
+        for ip_version in getattr(argument, 'ip_version_order', []):
+            if ip_version == 4:
+                aconf.ipv4 = True
+            else:
+                aconf.ipv6 = True
+
         aconf.level = argument.level
         aconf.list_policies = argument.list_policies
         aconf.manual = argument.manual
